@@ -1067,7 +1067,9 @@ class Variable(CanBehaveLikeAVariable[T]):
         values = {self._id_: hv}
         for d in kwargs.values():
             values.update(d.bindings)
-        return OperationResult(values, not bool(instance), self)
+        # conclusion selectors (e.g., Alternative) read the truth flag of their operands to select the conclusions.
+        self._is_false_ = not bool(instance)
+        return OperationResult(values, self._is_false_, self)
 
     @property
     def _name_(self):
